@@ -241,6 +241,25 @@ func runC10(c *Ctx) {
 			}
 		} else {
 			params = map[string]string{"id": "7", "name": "x", "a": "1", "b": "2", "n": "5", "x": "1", "y": "2"}
+			// a value for every name that occurs textually, so that the syntax error is the only possible reason to fail
+			for rest := pattern; ; {
+				i := strings.IndexByte(rest, '{')
+				if i < 0 {
+					break
+				}
+				j := strings.IndexByte(rest[i:], '}')
+				if j < 0 {
+					break
+				}
+				name := strings.TrimPrefix(rest[i+1:i+j], "-")
+				if k := strings.IndexByte(name, ':'); k >= 0 {
+					name = name[:k]
+				}
+				if name != "" {
+					params[name] = "7"
+				}
+				rest = rest[i+j+1:]
+			}
 		}
 		switch r.Intn(6) {
 		case 0:
